@@ -10,48 +10,45 @@
   child invokes during its poll run the crate's own `InlineWakerVec::wake`, translated, on the group's readiness set).
 
   `poll_tie`: from a well-formed group (`WfG`) whose keys are occupied slab entries below the capacity (`GoodKeys`,
-  C11's structural invariant) and whose members answer like futures / streams without panicking, one call of the
-  translated function with task waker `w`
+  C11's structural invariant), whose members answer like futures / streams without panicking, and whose handed-out
+  sub-wakers belong to slots below the capacity (`HandedOk`), one call of the translated function with task waker `w`
     * does not panic,
     * returns the `Poll` value that corresponds to the model's outcome (`outcomeOf`),
     * leaves a group and an environment whose reading is the model's state after `Eng.poll group · w`: same
       readiness bits / count / parent waker, capacity, states, slab, keys, queue (`core`), same remaining scripts,
       same handed-out wakers, and the same event trace (the model's additional `pollEnd` is logged by the caller),
-    * and preserves `WfG` and `GoodKeys`.
+    * and preserves `WfG` and `GoodKeys` (and `HandedOk`: `poll_tie_inv`, the same statement with that conjunct).
+
+  The vocabulary (`outcomeOf`, `FutSteps`, `StreamSteps`, `HandedOk`, `GoodKeys`) is in FcLemmas/KTieGrpPollDefs.lean
+  and FcLemmas/KTieGrpPollBase.lean, the proofs in FcLemmas/KTieGrpPoll{Base,F,S}.lean.
+
+  TWO CHANGES with respect to the statement as first written (`poll_tie_statement_v0` below keeps it):
+
+  (1) new hypothesis `HandedOk g.roleCapacity b.w`.  Without it the statement is false (`v0_false`): a member that was
+      handed `Wk.sub 5` earlier and invokes it during its poll makes the translated `InlineWakerVec::wake` run
+      `set_ready(5)` on a readiness set of length 2 — `FixedBitSet::set` panics out of bounds (`BitSet.set` = `none`),
+      while the model's `World.fireWk` sets bit 5 and forwards the wake-up.  In the crate a sub-waker only exists
+      for a slot below the capacity and the capacity only grows, so the hypothesis holds in every reachable state.
+  (2) `TieGrpF.GoodKeys` gets the field `cnt : len = number of keys` that `TieGrpS.GoodKeys` already had.  Without it
+      `GoodKeys g'` is not implied: a group with keys [0, 1] (both occupied) and slab `len = 1` satisfies
+      `nodup`, `occ`, `emp`; after a poll in which member 0 finishes, `len = 0` but the key set is [1], so `emp`
+      fails for `g'` (evaluated: `len' = 0`, `keys' = [1]`, `ret = Ready(Some((0, 7)))`).  `emp` alone is not
+      inductive; `cnt` is (and implies `emp`).
 -/
-import FcProps.KTieGrp
+import FcLemmas.KTieGrpPollF
+import FcLemmas.KTieGrpPollS
 
 namespace Fc
 open Rs Src
 
-/-- the model outcome a returned `Poll` value stands for (`keyed`: the `Keyed` view keeps the key) -/
-def outcomeOf (keyed : Bool) : Rs.Poll (Option (Nat × Nat)) → Outcome
-  | .pending => .pending
-  | .ready none => .none
-  | .ready (some (k, v)) => .some (if keyed then k else 0) [v]
-
-/-- every scripted step answers like a future and does not panic -/
-def FutSteps (w : World) : Prop :=
-  ∀ c st, st ∈ w.scripts c → st.res = .pend ∨ ∃ ok v, st.res = .ready ok v
-
-/-- every scripted step answers like a stream and does not panic -/
-def StreamSteps (w : World) : Prop :=
-  ∀ c st, st ∈ w.scripts c → st.res = .pend ∨ st.res = .fin ∨ ∃ v, st.res = .item v
-
 namespace TieGrpF
 open GrpF
-
-/-- the keys are pairwise distinct occupied slab entries below the capacity (C11's structural invariant) -/
-structure GoodKeys (g : FutureGroup) : Prop where
-  nodup : g.roleKeys.elems.Nodup
-  occ : ∀ k ∈ g.roleKeys.elems, k < g.roleCapacity ∧ k < g.roleSlab.entries ∧ ∃ c, g.roleSlab.member k = some c
-  /-- `len` counts the occupied entries: the group is empty exactly when it has no key -/
-  emp : g.roleSlab.len = 0 ↔ g.roleKeys.elems = []
 
 /-- the statement of the refinement (see the file header) -/
 def poll_tie_statement : Prop :=
   ∀ (g : FutureGroup) (b : Eng Grp) (w : Nat),
-    WfG g → GoodKeys g → FutSteps b.w → b.s.stream = false → b.s.dead = false → b.s.queue = [] →
+    WfG g → GoodKeys g → FutSteps b.w → HandedOk g.roleCapacity b.w →
+    b.s.stream = false → b.s.dead = false → b.s.queue = [] →
     ∃ g' env' ret,
       FutureGroup.poll_next_inner g w ((absF g b).w.emit (.pollBegin w)) = some (g', env', ret) ∧
       WfG g' ∧ GoodKeys g' ∧
@@ -60,23 +57,156 @@ def poll_tie_statement : Prop :=
       env'.handed = (Eng.poll group (absF g b) w).w.handed ∧
       (Eng.poll group (absF g b) w).w.trace = .pollEnd (outcomeOf b.s.keyed ret) :: env'.trace
 
+/-- `poll_tie` together with the preservation of the hypothesis that was added (`HandedOk`), so that the theorem
+    can be chained over a sequence of polls -/
+theorem poll_tie_inv (g : FutureGroup) (b : Eng Grp) (w : Nat)
+    (hw : WfG g) (hk : GoodKeys g) (hf : FutSteps b.w) (hh : HandedOk g.roleCapacity b.w)
+    (hst : b.s.stream = false) (hd : b.s.dead = false) (hq : b.s.queue = []) :
+    ∃ g' env' ret,
+      FutureGroup.poll_next_inner g w ((absF g b).w.emit (.pollBegin w)) = some (g', env', ret) ∧
+      WfG g' ∧ GoodKeys g' ∧
+      core (absF g' b) = core (Eng.poll group (absF g b) w) ∧
+      env'.scripts = (Eng.poll group (absF g b) w).w.scripts ∧
+      env'.handed = (Eng.poll group (absF g b) w).w.handed ∧
+      (Eng.poll group (absF g b) w).w.trace = .pollEnd (outcomeOf b.s.keyed ret) :: env'.trace ∧
+      HandedOk g'.roleCapacity env' :=
+  poll_tie_main g b w hw hk hf hh hst hd hq
+
+theorem poll_tie : poll_tie_statement := by
+  intro g b w hw hk hf hh hst hd hq
+  obtain ⟨g', env', ret, h1, h2, h3, h4, h5, h6, h7, _⟩ := poll_tie_inv g b w hw hk hf hh hst hd hq
+  exact ⟨g', env', ret, h1, h2, h3, h4, h5, h6, h7⟩
+
+/-- the statement as first written: no assumption on the wakers handed out earlier (and `GoodKeys` without `cnt`,
+    which only makes its hypothesis weaker and its conclusion weaker) -/
+def poll_tie_statement_v0 : Prop :=
+  ∀ (g : FutureGroup) (b : Eng Grp) (w : Nat),
+    WfG g → GoodKeys g → FutSteps b.w → b.s.stream = false → b.s.dead = false → b.s.queue = [] →
+    ∃ g' env' ret,
+      FutureGroup.poll_next_inner g w ((absF g b).w.emit (.pollBegin w)) = some (g', env', ret)
+
+/-! ### non-vacuity: the hypotheses on a concrete group, the conclusion by evaluation -/
+
+def exScripts : Nat → List Step := fun c =>
+  if c = 100 then [⟨.pend, [(100, 0)]⟩, ⟨.ready true 7, []⟩]
+  else if c = 101 then [⟨.ready true 8, [(100, 0)]⟩] else []
+
+/-- capacity 2, members 100 and 101 under the keys 0 and 1 -/
+def exG : Option FutureGroup := do
+  let g ← FutureGroup.with_capacity 2
+  let (g, _) ← FutureGroup.insert g 100
+  let (g, _) ← FutureGroup.insert g 101
+  pure g
+
+def exB : Eng Grp := { w := World.init .std 0 exScripts, s := Grp.init false true }
+
+theorem exG_some : exG.isSome = true := by rfl
+
+/-- the concrete group satisfies the structural hypotheses of `poll_tie` … -/
+theorem ex_wf (g : FutureGroup) (h : exG = some g) : WfG g ∧ GoodKeys g := by
+  have h' : some g = exG := h.symm
+  simp [exG, FutureGroup.with_capacity, FutureGroup.insert, WakerVec.new, StdVec.ReadinessVec.new,
+    FutureGroup.len, Slab.insert, Slab.empty, BTree.insert, BTree.empty, BTree.insertSorted, PVec.idx, PVec.set,
+    PVec.replicate, PS.PollState.set_pending, StdVec.ReadinessVec.set_ready, BitSet.idx, BitSet.ones, BitSet.set,
+    uadd, FutureGroup.reserve] at h'
+  subst h'
+  refine ⟨⟨⟨rfl, ?_, ?_, rfl⟩, rfl, rfl, ?_⟩, ⟨by decide, ?_, by decide, rfl⟩⟩
+  · intro i hi
+    have hi' : 2 ≤ i := hi
+    show decide (i < 2) = false
+    simp; omega
+  · rfl
+  · intro j hj
+    have hj' : 2 ≤ j := hj
+    show (if j = 1 then PS.PollState.pending else if j = 0 then PS.PollState.pending else PS.PollState.none_) = _
+    rw [if_neg (by omega), if_neg (by omega)]
+  · intro k hk
+    have hk' : k ∈ [0, 1] := hk
+    simp at hk'
+    rcases hk' with rfl | rfl
+    · exact ⟨by decide, by decide, 100, rfl⟩
+    · exact ⟨by decide, by decide, 101, rfl⟩
+
+theorem ex_env (N : Nat) : FutSteps exB.w ∧ HandedOk N exB.w := by
+  refine ⟨?_, ?_⟩
+  · intro c st hm
+    have hm' : st ∈ exScripts c := hm
+    unfold exScripts at hm'
+    split at hm'
+    · simp at hm'; rcases hm' with rfl | rfl
+      · exact Or.inl rfl
+      · exact Or.inr ⟨_, _, rfl⟩
+    · split at hm'
+      · simp at hm'; subst hm'; exact Or.inr ⟨_, _, rfl⟩
+      · cases hm'
+  · intro c i hm
+    cases hm
+
+/-- … so `poll_tie` applies to it … -/
+example (g : FutureGroup) (h : exG = some g) :
+    ∃ g' env' ret, FutureGroup.poll_next_inner g 1 ((absF g exB).w.emit (.pollBegin 1)) = some (g', env', ret) ∧
+      (Eng.poll group (absF g exB) 1).w.trace = .pollEnd (outcomeOf exB.s.keyed ret) :: env'.trace := by
+  obtain ⟨g', env', ret, h1, _, _, _, _, _, h2⟩ :=
+    poll_tie g exB 1 (ex_wf g h).1 (ex_wf g h).2 (ex_env 0).1 (ex_env g.roleCapacity).2 rfl rfl rfl
+  exact ⟨g', env', ret, h1, h2⟩
+
+/-- … and its conclusion, checked by evaluation on that group: poll with task waker 1 — member 100 is pending and wakes
+    itself, member 101 finishes with 8 and is removed (key 1); one key, one member and one set flag remain; the
+    environment's trace has 9 events, the model's is the same plus `pollEnd (some 1 [8])` -/
+example :
+    exG.bind (fun g =>
+      (FutureGroup.poll_next_inner g 1 ((absF g exB).w.emit (.pollBegin 1))).map (fun (g', env', ret) =>
+        let m := Eng.poll group (absF g exB) 1
+        (decide (m.w.trace = Ev.pollEnd (outcomeOf exB.s.keyed ret) :: env'.trace),
+         decide (ret matches .ready (some (1, 8))),
+         decide ((absF g' exB).s.keys = m.s.keys), m.s.keys, decide ((absF g' exB).s.len = m.s.len), m.s.len,
+         decide ((absF g' exB).w.count = m.w.count), m.w.count,
+         decide ((env'.scripts 100).length = (m.w.scripts 100).length), decide (env'.handed 100 = m.w.handed 100),
+         env'.trace.length)))
+      = some (true, true, true, [0], true, 1, true, 1, true, true, 9) := by rfl
+
+/-! ### the counterexample to the statement as first written (change (1) of the header) -/
+
+/-- member 100 was handed the sub-waker of slot 5 earlier (a slot the group of capacity 2 does not have) … -/
+def badB : Eng Grp :=
+  { w := { World.init .std 0 (fun c => if c = 100 then [⟨.pend, [(100, 1)]⟩] else []) with
+             handed := fun c => if c = 100 then [.sub 5] else [] },
+    s := Grp.init false true }
+
+/-- … and invokes it during its poll: the translated code panics (`FixedBitSet::set` out of bounds) … -/
+theorem bad_panics :
+    exG.bind (fun g => FutureGroup.poll_next_inner g 1 ((absF g badB).w.emit (.pollBegin 1))) = none := by rfl
+
+/-- … while the model sets bit 5 and forwards the wake-up -/
+example : exG.map (fun g => (Eng.poll group (absF g badB) 1).w.trace.take 4) =
+    some [.pollEnd .pending, .childEnd 101 .pend, .childBegin 101 1 (.sub 1), .childEnd 100 .pend] := by rfl
+
+theorem v0_false : ¬ poll_tie_statement_v0 := by
+  intro h
+  cases hg : exG with
+  | none => have := exG_some; rw [hg] at this; cases this
+  | some g =>
+    have hf : FutSteps badB.w := by
+      intro c st hm
+      have hm' : st ∈ (if c = 100 then [(⟨.pend, [(100, 1)]⟩ : Step)] else []) := hm
+      split at hm'
+      · simp at hm'; subst hm'; exact Or.inl rfl
+      · cases hm'
+    obtain ⟨g', env', ret, h1⟩ := h g badB 1 (ex_wf g hg).1 (ex_wf g hg).2 hf rfl rfl rfl
+    have := bad_panics
+    rw [hg] at this
+    simp only [Option.bind_some] at this
+    rw [this] at h1
+    cases h1
+
 end TieGrpF
 
 namespace TieGrpS
 open GrpS
 
-structure GoodKeys (g : StreamGroup) : Prop where
-  nodup : g.roleKeys.elems.Nodup
-  occ : ∀ k ∈ g.roleKeys.elems, k < g.roleCapacity ∧ k < g.roleSlab.entries ∧ ∃ c, g.roleSlab.member k = some c
-  emp : g.roleSlab.len = 0 ↔ g.roleKeys.elems = []
-  /-- `len` is the number of keys (what makes `done_count == stream_count` mean "every member ended") -/
-  cnt : g.roleSlab.len = g.roleKeys.elems.length
-  /-- between polls the removal queue is empty -/
-  q : g.roleQueue = []
-
 def poll_tie_statement : Prop :=
   ∀ (g : StreamGroup) (b : Eng Grp) (w : Nat),
-    WfG g → GoodKeys g → StreamSteps b.w → b.s.stream = true → b.s.dead = false →
+    WfG g → GoodKeys g → StreamSteps b.w → HandedOk g.roleCapacity b.w → b.s.stream = true → b.s.dead = false →
     ∃ g' env' ret,
       StreamGroup.poll_next_inner g w ((absS g b).w.emit (.pollBegin w)) = some (g', env', ret) ∧
       WfG g' ∧ GoodKeys g' ∧
@@ -85,6 +215,116 @@ def poll_tie_statement : Prop :=
       env'.handed = (Eng.poll group (absS g b) w).w.handed ∧
       (Eng.poll group (absS g b) w).w.trace = .pollEnd (outcomeOf b.s.keyed ret) :: env'.trace
 
+theorem poll_tie_inv (g : StreamGroup) (b : Eng Grp) (w : Nat)
+    (hw : WfG g) (hk : GoodKeys g) (hf : StreamSteps b.w) (hh : HandedOk g.roleCapacity b.w)
+    (hst : b.s.stream = true) (hd : b.s.dead = false) :
+    ∃ g' env' ret,
+      StreamGroup.poll_next_inner g w ((absS g b).w.emit (.pollBegin w)) = some (g', env', ret) ∧
+      WfG g' ∧ GoodKeys g' ∧
+      core (absS g' b) = core (Eng.poll group (absS g b) w) ∧
+      env'.scripts = (Eng.poll group (absS g b) w).w.scripts ∧
+      env'.handed = (Eng.poll group (absS g b) w).w.handed ∧
+      (Eng.poll group (absS g b) w).w.trace = .pollEnd (outcomeOf b.s.keyed ret) :: env'.trace ∧
+      HandedOk g'.roleCapacity env' :=
+  poll_tie_main g b w hw hk hf hh hst hd
+
+theorem poll_tie : poll_tie_statement := by
+  intro g b w hw hk hf hh hst hd
+  obtain ⟨g', env', ret, h1, h2, h3, h4, h5, h6, h7, _⟩ := poll_tie_inv g b w hw hk hf hh hst hd
+  exact ⟨g', env', ret, h1, h2, h3, h4, h5, h6, h7⟩
+
+/-! ### non-vacuity: a concrete run (two polls of a group of two streams), model and translation side by side -/
+
+def exScripts : Nat → List Step := fun c =>
+  if c = 200 then [⟨.item 5, [(201, 0)]⟩, ⟨.fin, []⟩]
+  else if c = 201 then [⟨.pend, []⟩, ⟨.fin, []⟩] else []
+
+def exG : Option StreamGroup := do
+  let g ← StreamGroup.with_capacity 2
+  let (g, _) ← StreamGroup.insert g 200
+  let (g, _) ← StreamGroup.insert g 201
+  pure g
+
+def exB : Eng Grp := { w := World.init .std 0 exScripts, s := Grp.init true true }
+
+theorem ex_wf (g : StreamGroup) (h : exG = some g) : WfG g ∧ GoodKeys g := by
+  have h' : some g = exG := h.symm
+  simp [exG, StreamGroup.with_capacity, StreamGroup.insert, WakerVec.new, StdVec.ReadinessVec.new,
+    StreamGroup.len, Slab.insert, Slab.empty, BTree.insert, BTree.empty, BTree.insertSorted, PVec.idx, PVec.set,
+    PVec.replicate, PS.PollState.set_pending, StdVec.ReadinessVec.set_ready, BitSet.idx, BitSet.ones, BitSet.set,
+    uadd, StreamGroup.reserve] at h'
+  subst h'
+  refine ⟨⟨⟨rfl, ?_, ?_, rfl⟩, rfl, rfl, ?_⟩, ⟨by decide, ?_, by decide, rfl, rfl⟩⟩
+  · intro i hi
+    have hi' : 2 ≤ i := hi
+    show decide (i < 2) = false
+    simp; omega
+  · rfl
+  · intro j hj
+    have hj' : 2 ≤ j := hj
+    show (if j = 1 then PS.PollState.pending else if j = 0 then PS.PollState.pending else PS.PollState.none_) = _
+    rw [if_neg (by omega), if_neg (by omega)]
+  · intro k hk
+    have hk' : k ∈ [0, 1] := hk
+    simp at hk'
+    rcases hk' with rfl | rfl
+    · exact ⟨by decide, by decide, 200, rfl⟩
+    · exact ⟨by decide, by decide, 201, rfl⟩
+
+theorem ex_env (N : Nat) : StreamSteps exB.w ∧ HandedOk N exB.w := by
+  refine ⟨?_, ?_⟩
+  · intro c st hm
+    have hm' : st ∈ exScripts c := hm
+    unfold exScripts at hm'
+    split at hm'
+    · simp at hm'; rcases hm' with rfl | rfl
+      · exact Or.inr (Or.inr ⟨_, rfl⟩)
+      · exact Or.inr (Or.inl rfl)
+    · split at hm'
+      · simp at hm'; rcases hm' with rfl | rfl
+        · exact Or.inl rfl
+        · exact Or.inr (Or.inl rfl)
+      · cases hm'
+  · intro c i hm
+    cases hm
+
+/-- the hypotheses of `poll_tie` hold for the concrete group, so it applies … -/
+example (g : StreamGroup) (h : exG = some g) :
+    ∃ g' env' ret, StreamGroup.poll_next_inner g 1 ((absS g exB).w.emit (.pollBegin 1)) = some (g', env', ret) ∧
+      (Eng.poll group (absS g exB) 1).w.trace = .pollEnd (outcomeOf exB.s.keyed ret) :: env'.trace := by
+  obtain ⟨g', env', ret, h1, _, _, _, _, _, h2⟩ :=
+    poll_tie g exB 1 (ex_wf g h).1 (ex_wf g h).2 (ex_env 0).1 (ex_env g.roleCapacity).2 rfl rfl
+  exact ⟨g', env', ret, h1, h2⟩
+
+/-- … and the conclusion by evaluation.  poll 1: member 200 yields 5 (and is re-armed); poll 2: 200 ends, 201 is pending — `Pending`, key 0 leaves through the
+    removal queue; after each poll the translation's trace + `pollEnd` is the model's trace, keys / len / count agree -/
+example :
+    exG.bind (fun g =>
+      (StreamGroup.poll_next_inner g 1 ((absS g exB).w.emit (.pollBegin 1))).bind (fun (g1, env1, ret1) =>
+        let m1 := Eng.poll group (absS g exB) 1
+        let b1 : Eng Grp := { w := env1, s := m1.s }
+        (StreamGroup.poll_next_inner g1 2 ((absS g1 b1).w.emit (.pollBegin 2))).map (fun (g2, env2, ret2) =>
+          let m2 := Eng.poll group (absS g1 b1) 2
+          (decide (m1.w.trace = Ev.pollEnd (outcomeOf true ret1) :: env1.trace),
+           decide (ret1 matches .ready (some (0, 5))),
+           decide (m2.w.trace = Ev.pollEnd (outcomeOf true ret2) :: env2.trace),
+           decide (ret2 matches .pending),
+           decide ((absS g2 b1).s.keys = m2.s.keys), m2.s.keys, decide ((absS g2 b1).s.len = m2.s.len), m2.s.len,
+           decide ((absS g2 b1).s.queue = m2.s.queue), decide ((absS g2 b1).w.count = m2.w.count), m2.w.count))))
+      = some (true, true, true, true, true, [1], true, 1, true, true, 0) := by rfl
+
 end TieGrpS
+
+#print axioms TieGrpF.poll_tie
+#print axioms TieGrpF.poll_tie_inv
+#print axioms TieGrpS.poll_tie_inv
+#print axioms TieGrpS.poll_tie
+#print axioms TieGrpF.v0_false
+#print axioms TieGrpF.exG_some
+#print axioms TieGrpF.ex_wf
+#print axioms TieGrpF.ex_env
+#print axioms TieGrpF.bad_panics
+#print axioms TieGrpS.ex_wf
+#print axioms TieGrpS.ex_env
 
 end Fc
